@@ -210,10 +210,187 @@ func lkGenRaw(r *Rng) lkCase {
 	return c
 }
 
+// genProvides: the territory the fixpoint theorems do not cover yet (relock_exact_partial stops at provides):
+// provides chains (a -> v0, the provider of v0 -> v1, ...), one virtual name provided by two or three packages
+// (unversioned, versioned, with the provider's own version), version-constrained dependencies and world entries
+// on virtual names, dependencies whose operator run is no operator (`==`, `><`: class F09l).  One or two
+// indexes (the second sometimes pinned), mostly one architecture.  Every failing round trip must fall into a
+// listed class: this is the search for holes in the class list where relock_unlisted_exact_partial does not reach.
+func lkGenProvides(r *Rng, tier string) lkCase {
+	vers := []string{"1.0-r0", "1.1-r0", "2.0-r0"}
+	nN := r.Range(3, 6)
+	var names []string
+	for i := 0; i < nN; i++ {
+		names = append(names, string(rune('a'+i)))
+	}
+	nV := r.Range(1, 3)
+	var virts []string
+	for i := 0; i < nV; i++ {
+		virts = append(virts, Pick(r, []string{"virt", "so:libx.so.", "cmd:sh"})+fmt.Sprint(i))
+	}
+	verOf := map[string][]string{}
+	for _, n := range names {
+		verOf[n] = []string{Pick(r, vers)}
+		if r.Chance(40) {
+			v := Pick(r, vers)
+			if v != verOf[n][0] {
+				verOf[n] = append(verOf[n], v)
+			}
+		}
+	}
+	// providers: virtual k is provided by 1-3 names; a chain links the first provider of virtual k to virtual k+1
+	provOf := map[string][]string{} // name -> provides (a form is chosen per version below)
+	chain := map[string]string{}    // name -> virtual it depends on
+	for k, v := range virts {
+		np := 1
+		switch {
+		case r.Chance(45):
+			np = 2
+		case r.Chance(15):
+			np = 3
+		}
+		for j := 0; j < np; j++ {
+			n := Pick(r, names)
+			if !contains(provOf[n], v) {
+				provOf[n] = append(provOf[n], v)
+			}
+			if j == 0 && k+1 < len(virts) && r.Chance(60) {
+				chain[n] = virts[k+1]
+			}
+		}
+	}
+	op := func(target string, virtual bool) string {
+		switch {
+		case r.Chance(45):
+			return target
+		case r.Chance(3):
+			return target + Pick(r, []string{"==1.0-r0", "==junk", "><1.0", "=="}) // no operator: any version, text kept
+		}
+		v := Pick(r, vers)
+		if virtual && r.Bool() {
+			v = Pick(r, []string{"1.0", "2.0", "1.0-r0"})
+		}
+		return target + Pick(r, []string{"=", ">=", "<", ">", "<=", "~"}) + v
+	}
+	indexes := []rIndex{{Pin: "", URI: "https://r0.test/main"}}
+	if r.Chance(25) {
+		ix := rIndex{Pin: "", URI: "https://r1.test/main"}
+		if r.Chance(60) {
+			ix.Pin = "edge"
+		}
+		indexes = append(indexes, ix)
+	}
+	for _, n := range names {
+		for _, v := range verOf[n] {
+			p := rPkg{Name: n, Version: v}
+			for _, vt := range provOf[n] {
+				switch r.Intn(5) {
+				case 0, 1:
+					p.Provides = append(p.Provides, vt)
+				case 2:
+					p.Provides = append(p.Provides, vt+"="+v)
+				default:
+					p.Provides = append(p.Provides, vt+"="+Pick(r, []string{"1.0", "2.0", "1.0-r0"}))
+				}
+			}
+			if vt, ok := chain[n]; ok {
+				p.Deps = append(p.Deps, op(vt, true))
+			}
+			nd := r.Range(0, 2)
+			for j := 0; j < nd; j++ {
+				if r.Chance(55) {
+					p.Deps = append(p.Deps, op(Pick(r, virts), true))
+				} else if o := Pick(r, names); o != n {
+					p.Deps = append(p.Deps, op(o, false))
+				}
+			}
+			i := 0
+			if len(indexes) > 1 && r.Chance(30) {
+				i = 1
+			}
+			indexes[i].Pkgs = append(indexes[i].Pkgs, p)
+		}
+	}
+	var world []string
+	nw := r.Range(1, 3)
+	for i := 0; i < nw; i++ {
+		switch {
+		case r.Chance(40):
+			world = append(world, op(Pick(r, virts), true))
+		default:
+			world = append(world, op(Pick(r, names), false))
+		}
+	}
+	if len(indexes) > 1 && indexes[1].Pin != "" && len(indexes[1].Pkgs) > 0 && r.Chance(50) {
+		world = append(world, Pick(r, indexes[1].Pkgs).Name+"@"+indexes[1].Pin)
+	}
+	indexes = lkSortIndexes(indexes)
+	c := lkCase{Kind: "family", World: world}
+	n := 1
+	if r.Chance(20) {
+		n = 2
+	}
+	for k := 0; k < n; k++ {
+		if k == 0 || r.Chance(40) {
+			a := rArch{Arch: lkArchNames[k]}
+			for _, ix := range indexes {
+				ix.URI += "/" + lkArchNames[k]
+				a.Indexes = append(a.Indexes, ix)
+			}
+			c.Archs = append(c.Archs, a)
+			continue
+		}
+		c.Archs = append(c.Archs, deriveArch(r, indexes, lkArchNames[k]))
+	}
+	return c
+}
+
+// lkShapeTags: which of the shapes outside the proved territory a resolved set exhibits
+func lkShapeTags(world []string, set []lkPkg) []string {
+	var tags []string
+	provided := map[string][]lkPkg{}
+	versioned := false
+	for _, p := range set {
+		for _, pr := range p.Provides {
+			if n, ok := lkProvidedName(pr); ok {
+				provided[n] = append(provided[n], p)
+				if strings.ContainsAny(pr, "=<>~") {
+					versioned = true
+				}
+			}
+		}
+	}
+	if len(provided) == 0 {
+		return []string{"relock-set:no-provides"}
+	}
+	tags = append(tags, "relock-set:provides")
+	if versioned {
+		tags = append(tags, "relock-set:versioned-provide")
+	}
+	for _, ps := range provided {
+		if len(ps) > 1 {
+			tags = append(tags, "relock-set:virtual-provided-by-two-members")
+			break
+		}
+	}
+	for _, w := range world {
+		if n, ok := lkProvidedName(w); ok && len(provided[n]) > 0 {
+			tags = append(tags, "relock-set:virtual-requested")
+			if strings.ContainsAny(w, "=<>~") {
+				tags = append(tags, "relock-set:virtual-requested-with-version")
+			}
+			break
+		}
+	}
+	return tags
+}
+
 func (lockSuite) Gen(r *Rng, i int, tier string) any {
 	switch {
 	case i%10 == 3 || i%10 == 7:
 		return lkGenRaw(r)
+	case i%10 == 1 || i%10 == 5:
+		return lkGenProvides(r, tier)
 	case i%25 == 9:
 		return lkGenCfg(r, tier)
 	case i%25 == 19:
@@ -406,6 +583,9 @@ func lkRunFamily(c lkCase) []Step {
 				tags = append(tags, "relock:error")
 			case lkIDs(re) == lkIDs(res[self]):
 				tags = append(tags, "relock:fixpoint", fmt.Sprintf("lock-size:%d", min(len(l), 8)))
+				for _, t := range lkShapeTags(c.World, res[self]) {
+					tags = append(tags, "fixpoint/"+t)
+				}
 				for _, p := range res[self] {
 					if p.Pin != "" {
 						tags = append(tags, "relock:fixpoint-with-pinned-member")
